@@ -173,6 +173,9 @@ class ProgramIndex:
             return self._pick([f for f in self.by_qual[(segs[-2], segs[-1])] if len(f.node["sig"]["inputs"]) == nargs], cur_file)
         if len(segs) == 1 or segs[-2] in ("self", "super", "crate") or segs[-2][:1].islower():
             cands = [f for f in self.by_name.get(segs[-1], []) if not f.impl_self and len(f.node["sig"]["inputs"]) == nargs]
+            if len(segs) >= 2 and segs[-2] not in ("self", "super", "crate"):
+                inmod = [f for f in cands if f.file.endswith("/%s.rs" % segs[-2]) or f.file.endswith("/%s/mod.rs" % segs[-2]) or segs[-2] in f.mods]
+                cands = inmod or cands
             return self._pick(cands, cur_file) if cands else None
         return None
 
@@ -224,6 +227,10 @@ class AEval(dtable.Eval):
             return self.tokens_of(v[2][0])
         if k == "ctor" and v[1] == "None":
             return ""
+        if v == DEFAULT:
+            return ""        # `TokenStream::new()` / `Default::default()`: no tokens
+        if k == "list" and all(x[0] == "tok" for x in v[1]):
+            return " ".join(x[1] for x in v[1])        # token streams collected into one TokenStream
         raise Unknown("value has no token form: %s" % (v,))
 
     def quote(self, tokens, env):
@@ -535,9 +542,11 @@ class AEval(dtable.Eval):
             l = e["left"]
             if is_node(l) and l["k"] == "Path":
                 env[l["path"]] = v
+                self._note_assigned(l["path"])
                 return UNIT
             if is_node(l) and l["k"] == "Unary" and l["op"] == "*" and is_node(l["expr"]) and l["expr"]["k"] == "Path":
                 env[l["expr"]["path"]] = v
+                self._note_assigned(l["expr"]["path"])
                 return UNIT
             if is_node(l) and l["k"] == "Field":
                 # `base.f = v`: functional update of the record held by base (recursively for `a.b.c = v`)
@@ -705,6 +714,9 @@ class AEval(dtable.Eval):
         if not hasattr(self, "_file_stack"):
             self._file_stack = []
         self._file_stack.append(fn.file)
+        if not hasattr(self, "_assigned_stack"):
+            self._assigned_stack = []
+        self._assigned_stack.append(None)
         try:
             try:
                 return self._coerce_ret(fn, self.ex(fn.body, env))
@@ -714,6 +726,7 @@ class AEval(dtable.Eval):
             self.depth -= 1
             self._impl_stack.pop()
             self._file_stack.pop()
+            self._assigned_stack.pop()
             self._callee_env = (fn, env)
 
     def _write_back(self, arg_nodes, env):
@@ -960,13 +973,23 @@ class AEval(dtable.Eval):
             e2.update(b)
             if a.get("guard") is not None and not self.cond(a["guard"], e2):
                 continue
+            if not hasattr(self, "_assigned_stack"):
+                self._assigned_stack = []
+            mine = set()
+            self._assigned_stack.append(mine)
             try:
                 return self.ex(a["body"], e2)
             finally:
+                self._assigned_stack.pop()
                 for kk in env:
                     if kk not in b and kk in e2:
                         env[kk] = e2[kk]
-                self._after_arm(m["scrutinee"], a["pat"], v, b, e2, env)
+                root = m["scrutinee"]
+                while is_node(root) and root["k"] in ("Paren", "Unary", "Ref", "Field"):
+                    root = root.get("expr") or root.get("base")
+                if not (is_node(root) and root["k"] == "Path" and root["path"] in mine):
+                    # (an arm that assigned the matched storage itself - `*self = ..` - has replaced it: the bindings are dead)
+                    self._after_arm(m["scrutinee"], a["pat"], v, b, e2, env)
         raise Unknown("no arm matches " + str(v)[:200])
 
     def _is_place(self, node, env):
@@ -1087,9 +1110,12 @@ class AEval(dtable.Eval):
                 return DEFAULT          # the Default of a type parameter
             if f["path"] in ("Cow::Owned", "Cow::Borrowed", "std::borrow::Cow::Owned", "std::borrow::Cow::Borrowed") and len(args) == 1:
                 return args[0]
-            if len(segs) == 1 and last in self.funcs and self.funcs[last].impl_self and PROGRAM is not None:
+            if all(sg[:1].islower() or sg[:1] == "_" for sg in segs) and last in self.funcs and self.funcs[last].impl_self and PROGRAM is not None:
                 # a bare call `name(..)` denotes a free function, not the method of that name of some impl in the file
                 free = [f2 for f2 in PROGRAM.by_name.get(last, []) if not f2.impl_self and len(f2.node["sig"]["inputs"]) == len(args)]
+                if len(segs) >= 2 and segs[-2] not in ("self", "super", "crate"):
+                    # `module::name(..)`: the function of that name in the file of that module
+                    free = [f2 for f2 in free if f2.file.endswith("/%s.rs" % segs[-2]) or f2.file.endswith("/%s/mod.rs" % segs[-2]) or segs[-2] in f2.mods]
                 pf = PROGRAM._pick(free, self._cur_file() or self.funcs[last].file) if free else None
                 if pf is not None:
                     v = self._call_program_fn(pf, args)
@@ -2132,6 +2158,14 @@ class AEval(dtable.Eval):
             return True
         return PROGRAM is not None and st in PROGRAM.variant_enum.get(r[1], ())
 
+    def _note_assigned(self, name):
+        """`name = ..` / `*name = ..` in the function being evaluated: the enclosing match arms of this function (not of its callers)
+        see that the variable was replaced"""
+        for st_ in reversed(getattr(self, "_assigned_stack", [])):
+            if st_ is None:
+                break
+            st_.add(name)
+
     def _cur_file(self):
         st = getattr(self, "_file_stack", None)
         return st[-1] if st else None
@@ -2175,6 +2209,9 @@ class AEval(dtable.Eval):
         if not hasattr(self, "_file_stack"):
             self._file_stack = []
         self._file_stack.append(fn.file)
+        if not hasattr(self, "_assigned_stack"):
+            self._assigned_stack = []
+        self._assigned_stack.append(None)
         try:
             return self._coerce_ret(fn, self.ex(fn.body, env))
         except Ret as r:
@@ -2182,6 +2219,7 @@ class AEval(dtable.Eval):
         finally:
             self._impl_stack.pop()
             self._file_stack.pop()
+            self._assigned_stack.pop()
 
 
 def _tok_iter(tokens):
